@@ -746,7 +746,22 @@ def _class_attr(prog: Any, cq: str, env: dict[str, Any], kw: dict[str, Any], nam
                     try:
                         val = Interp(module_env(prog, c.module, env, kw), **kw).ev(v)
                     except AnalysisError:
-                        raise AnalysisError(f"tabulation: class attribute {q}.{name} is not evaluable")
+                        # the class body is a scope of its own: the value may name functions and constants defined in it
+                        try:
+                            cenv = module_env(prog, c.module, env, kw)
+                            body_env = dict(cenv)
+                            for mn, mi in c.methods.items():
+                                if mn not in env:
+                                    body_env[mn] = Interp(cenv, **kw)._make_function(mi.node)
+                            for an, sts in c.assigns.items():
+                                if an != name and an not in env and an not in body_env:
+                                    try:
+                                        body_env[an] = const_eval(prog, c.module, sts[-1].value)
+                                    except Exception:
+                                        pass
+                            val = Interp(body_env, **kw).ev(v)
+                        except AnalysisError:
+                            raise AnalysisError(f"tabulation: class attribute {q}.{name} is not evaluable")
                 if state is not None:
                     state[(q, name)] = val
                 return val
